@@ -150,6 +150,8 @@ def function_level(ctx, sut):
             problems = name_problems(sut, name, attr)
             if not (char.isascii() and (char.isalnum() or char == "_")):
                 ctx.nontrivial("n:" + name)
+            if serial % 20011 == 7:
+                ctx.sample({"name": name, "codepoint": hex(cp), "category": cat, "attribute": attr})
             if problems:
                 ctx.witness("bad_attribute_name", {"name": name, "attr": attr, "codepoint": hex(cp),
                                                    "category": cat}, "; ".join(problems))
@@ -295,6 +297,7 @@ def sibling_sets(ctx, sut):
             ctx.witness("sibling_parse_raised", {"names": names}, f"{type(exc).__name__}: {exc!r}")
             continue
         sources = sorted(prop.source for prop in cls.properties.values())
+        ctx.sample({"sibling_names": names, "attributes": sorted(cls.properties)}, every=30)
         if len(cls.properties) == len(names) and sources == sorted(names):
             ctx.count("siblings.distinct_ok")
             continue
